@@ -47,7 +47,7 @@ def gen_deflate(tier, rng):
             tail = (1 << 20, 1 << 20)
             if name == "pair": tail = (fam[2], fam[3])
             scns.append(igz.scenario(len(scns), "deflate", inp, level=level, wrap=wrap, lbuf=[0, 3][k % 2], mem=mem, prefill=k % 3, calls=calls,
-                                     tail_ai=tail[0], tail_ao=tail[1], cap=40000, meta={"family": name, "cls": cls}))
+                                     tail_ai=tail[0], tail_ao=tail[1], cap=max(40000, 5 * n + 4000), meta={"family": name, "cls": cls}))      # (1,1)-byte buffers need about n + output calls
             k += 1
     # (v) first output chunk swept over every small size (so that every header / stored-block header / marker ends up
     #     staged in the 16-byte temporary buffer at every split), consumed input recycled or unmapped at once
